@@ -8,14 +8,25 @@ import (
 	"encoding/json"
 	"fmt"
 	"os"
+	"os/signal"
 	"path/filepath"
 	"runtime"
-	"sync"
 	"strconv"
 	"strings"
+	"sync"
+	"syscall"
 	"testing"
 	"time"
 )
+
+func init() {
+	// os/signal starts its signal-mask goroutine and the channels it selects on at the first Notify call. Helm's
+	// install/upgrade commands call Notify; if that first call happened inside a synctest bubble the runtime would
+	// abort ("select on synctest channel from outside bubble"). Do it once here, outside any bubble.
+	c := make(chan os.Signal, 1)
+	signal.Notify(c, syscall.SIGUSR2)
+	signal.Stop(c)
+}
 
 func envU(name string, def uint64) uint64 {
 	if v := os.Getenv(name); v != "" {
